@@ -102,11 +102,15 @@ pub fn source_bytes(case: &Value) -> Result<Vec<u8>, String> {
         }
         _ => {
             let ops: Vec<Op> = serde_json::from_value(case["source"]["ops"].clone()).unwrap_or_default();
+            let aops: Vec<crate::annot::AOp> = serde_json::from_value(case["source"]["annotations"].clone()).unwrap_or_default();
             let mut b = umya::new_file();
             for i in 1..case["source"]["sheets"].as_u64().unwrap_or(2) {
                 let _ = b.new_sheet(format!("S{}", i + 1));
             }
             world::apply_all(&mut b, &ops);
+            for a in &aops {
+                crate::annot::apply(&mut b, a);
+            }
             world::save_mem(&b, false)
         }
     }
@@ -626,7 +630,15 @@ pub fn gen_source(sw: &mut Rng, wl: &mut Rng, tier: &str) -> Value {
     for i in 0..n {
         ops.push(world::gen_cell_op(wl, &cfg, &format!("g{}", i)));
     }
-    json!({"kind": "generated", "sheets": sheets, "ops": ops})
+    // sheet-level annotations (conditional formats with and without child elements, validations, panes, ...)
+    let mut aw = [0u32; 11];
+    for w in aw.iter_mut().take(9) {
+        *w = if sw.chance(1, 2) { 1 + sw.below(2) as u32 } else { 0 };
+    }
+    aw[1] += 2;
+    let na = wl.usize(10);
+    let annotations: Vec<crate::annot::AOp> = (0..na).map(|i| crate::annot::gen_aop(wl, sheets, 0, &format!("a{}", i), &aw)).collect();
+    json!({"kind": "generated", "sheets": sheets, "ops": ops, "annotations": annotations})
 }
 
 pub fn cases(run_seed: u64, tier: &str, _scratch: &str) -> Vec<Value> {
